@@ -3,6 +3,7 @@ package main
 import (
 	"go/constant"
 	"go/token"
+	"go/types"
 	"sort"
 	"strings"
 
@@ -21,14 +22,23 @@ import (
 
 const maxCondPaths = 8
 
+type yieldTarget struct {
+	ph   *ssa.Phi
+	want bool
+}
+
 func (f *FuncFacts) condPaths(cond ssa.Value, want bool, guard bool, depth int) ([][]string, bool) {
+	return f.condPathsY(cond, want, guard, depth, nil)
+}
+
+func (f *FuncFacts) condPathsY(cond ssa.Value, want bool, guard bool, depth int, outer []yieldTarget) ([][]string, bool) {
 	if depth > 4 {
 		return nil, false
 	}
 	switch v := cond.(type) {
 	case *ssa.UnOp:
 		if v.Op == token.NOT {
-			return f.condPaths(v.X, !want, guard, depth)
+			return f.condPathsY(v.X, !want, guard, depth, outer)
 		}
 	case *ssa.Const:
 		if v.Value != nil && v.Value.Kind() == constant.Bool {
@@ -48,11 +58,11 @@ func (f *FuncFacts) condPaths(cond ssa.Value, want bool, guard bool, depth int) 
 				return nil, false
 			}
 			rv := unspill(ri.ins.Results[0], ri.blk)
-			sub, ok := hf.condPaths(rv, want, guard, depth+1)
+			sub, ok := hf.condPathsY(rv, want, guard, depth+1, nil)
 			if !ok {
 				return nil, false
 			}
-			base := hf.leafContext(ri.blk, nil, want, guard)
+			base := hf.leafContext(ri.blk, []yieldTarget{{nil, want}}, guard)
 			for _, p := range sub {
 				out = append(out, append(append([]string{}, base...), p...))
 			}
@@ -73,14 +83,15 @@ func (f *FuncFacts) condPaths(cond ssa.Value, want bool, guard bool, depth int) 
 		var out [][]string
 		for i, e := range v.Edges {
 			pred := v.Block().Preds[i]
-			sub, ok := f.condPaths(e, want, guard, depth+1)
+			targets := append(append([]yieldTarget{}, outer...), yieldTarget{v, want})
+			sub, ok := f.condPathsY(e, want, guard, depth+1, targets)
 			if !ok {
 				return nil, false
 			}
 			if len(sub) == 0 {
 				continue
 			}
-			base := f.leafContext(pred, v, want, guard)
+			base := f.leafContext(pred, targets, guard)
 			if iff := f.ifOf(pred); iff != nil && pred.Succs[0] != pred.Succs[1] {
 				for k, sc := range pred.Succs {
 					if sc == v.Block() {
@@ -126,14 +137,21 @@ func (f *FuncFacts) yields(d *ssa.BasicBlock, k int, ph *ssa.Phi, want bool) boo
 
 // leafContext: the branch atoms needed to reach block b (a predecessor of the phi, or a returning
 // block of a predicate helper).
-func (f *FuncFacts) leafContext(b *ssa.BasicBlock, ph *ssa.Phi, want bool, guard bool) []string {
+func (f *FuncFacts) leafContext(b *ssa.BasicBlock, targets []yieldTarget, guard bool) []string {
 	rejEdge, _ := f.rejEdges()
 	var atoms []string
 	for _, c := range f.context(b, rejEdge) {
-		if guard && f.yields(c.blk, 1-c.succ, ph, want) {
-			continue
+		drop := false
+		if guard {
+			for _, t := range targets {
+				if f.yields(c.blk, 1-c.succ, t.ph, t.want) {
+					drop = true
+				}
+			}
 		}
-		atoms = append(atoms, c.atom)
+		if !drop {
+			atoms = append(atoms, c.atom)
+		}
 	}
 	return atoms
 }
@@ -154,4 +172,29 @@ func (f *FuncFacts) isInlinedCall(v ssa.Value) bool {
 	}
 	call, ok := v.(*ssa.Call)
 	return ok && f.c.inlined(call.Common()) != nil
+}
+
+// boolReturn: in a predicate-style function `return <bool expression>` is the same decision as
+// `if !<expression> { return false }; return true`. The conjunctions under which the expression has
+// the failing value are returned; each becomes a rejection of the function.
+func (f *FuncFacts) boolReturn(ri *retInfo) ([][]string, bool) {
+	if ri.ins == nil || ri.kind != retMaybe || (f.mode != rejFalse && f.mode != rejTrue) || len(ri.ins.Results) == 0 {
+		return nil, false
+	}
+	v := unspill(ri.ins.Results[len(ri.ins.Results)-1], ri.blk)
+	if _, isConst := v.(*ssa.Const); isConst {
+		return nil, false
+	}
+	if b, ok := v.Type().Underlying().(*types.Basic); !ok || b.Kind() != types.Bool {
+		return nil, false
+	}
+	failing := f.mode == rejTrue
+	fail, ok := f.condPaths(v, failing, true, 0)
+	if !ok || len(fail) == 0 {
+		return nil, false
+	}
+	if acc, ok := f.condPaths(v, !failing, true, 0); !ok || len(acc) == 0 {
+		return nil, false
+	}
+	return fail, true
 }
